@@ -16,6 +16,44 @@ INPUTS = [("VfYoung.mfront", "c"), ("VfMP.mfront", "generic"), ("VfProbe.mfront"
 STR = r'"((?:[^"\\]|\\.)*)"'     # a string of targets.lst, escaped quotes included
 
 
+def blocks(txt, head):
+    """bodies of the blocks `head : { ... }` of txt (braces matched outside strings)"""
+    out = []
+    for m in re.finditer(head + r"\s*:\s*\{", txt):
+        depth, k, instr = 1, m.end(), False
+        while k < len(txt) and depth:
+            c = txt[k]
+            if instr:
+                if c == "\\":
+                    k += 1
+                elif c == '"':
+                    instr = False
+            elif c == '"':
+                instr = True
+            elif c == "{":
+                depth += 1
+            elif c == "}":
+                depth -= 1
+            k += 1
+        if depth:
+            return None
+        out.append(txt[m.end():k - 1])
+    return out
+
+
+def block_items(blk, owner, tags):
+    """items of a library / target block: every list `key : { "..." , ... }` and every scalar field `key : value;`"""
+    items = []
+    for k in re.finditer(r"(\w+)\s*:\s*\{(.*?)\}", blk, re.S):
+        tag = tags.get(k.group(1), k.group(1))
+        items += ["%s:%s:%s" % (tag, owner, x) for x in re.findall(STR, k.group(2))]
+    flat = re.sub(r"\{.*?\}", "", blk, flags=re.S)
+    for k in re.finditer(r"(\w+)\s*:\s*([^{\n;]+);", flat):
+        if k.group(1) != "name" and k.group(2).strip():
+            items.append("fld:%s:%s=%s" % (owner, k.group(1), k.group(2).strip()))
+    return items
+
+
 def parse_registry(path):
     """independent parser of src/targets.lst -> (kind, items)"""
     if not os.path.exists(path):
@@ -24,31 +62,23 @@ def parse_registry(path):
     if txt.count("{") != txt.count("}") or not txt.strip().endswith("};") or not txt.strip():
         return "partial", []
     items = []
-    for m in re.finditer(r"library\s*:\s*\{(.*?)\n\};", txt, re.S):
-        blk = m.group(1)
+    libs = blocks(txt, r"\blibrary")
+    tgts = blocks(txt, r"\btarget")
+    if libs is None or tgts is None:
+        return "partial", []
+    for blk in libs:
         n = re.search(r'name\s*:\s*' + STR, blk)
         if not n:
             return "partial", []
         items.append("lib:" + n.group(1))
-        # every list of the block (sources, cppflags, include_directories, link_directories, link_libraries, epts, deps, ...)
-        for k in re.finditer(r"(\w+)\s*:\s*\{(.*?)\}", blk, re.S):
-            tag = {"sources": "src", "epts": "ept"}.get(k.group(1), k.group(1))
-            items += ["%s:%s:%s" % (tag, n.group(1), x) for x in re.findall(STR, k.group(2))]
-        # ... and every scalar field (type, prefix, suffix, install_path)
-        for k in re.finditer(r"^(\w+)\s*:\s*([^{\n;]+);", blk, re.M):
-            if k.group(1) != "name":
-                items.append("fld:%s:%s=%s" % (n.group(1), k.group(1), k.group(2).strip()))
+        items += block_items(blk, n.group(1), {"sources": "src", "epts": "ept"})
     # specific targets: name, commands (text as written, escapes included), sources, dependencies
-    for m in re.finditer(r"target\s*:\s*\{(.*?)\n\};", txt, re.S):
-        blk = m.group(1)
+    for blk in tgts:
         n = re.search(r'name\s*:\s*' + STR, blk)
         if not n:
             return "partial", []
         items.append("tgt:" + n.group(1))
-        for key, tag in (("commands", "cmd"), ("sources", "tsrc"), ("dependencies", "dep")):
-            k = re.search(key + r"\s*:\s*\{(.*?)\n\}", blk, re.S)
-            if k:
-                items += ["%s:%s:%s" % (tag, n.group(1), x) for x in re.findall(STR, k.group(1))]
+        items += block_items(blk, n.group(1), {"commands": "cmd", "sources": "tsrc", "dependencies": "dep"})
     h = re.search(r"\nheaders\s*:\s*\{(.*?)\}", txt, re.S)
     if h:
         items += ["hdr:" + x for x in re.findall(STR, h.group(1))]
